@@ -21,7 +21,7 @@ STAGE_OBLIGATIONS = {
                       "stage-offset-is-sum-of-earlier-recorded-stages", "stage-rows-within-arrays", "chain-iterators-cover-stage-length",
                       "trace-functions-passed-are-the-stage-trace-functions", "chain-states-and-rngs-threaded-between-stages", "per-chain-trace-arrays",
                       "per-chain-statistics-arrays", "returns-final-stage-states", "every-stage-sampled-once-in-order", "stager-receives-the-request",
-                      "stager-receives-iteration-counts"},
+                      "stager-receives-iteration-counts", "after-a-dropped-chain-survivors-keep-their-own-arrays-and-generators"},
     "C14": _COMMON | {"chain-states-and-rngs-threaded-between-stages", "chain-function-selected-by-n_process"},
     "C15": {"no-stage-started-after-an-interrupt", "interrupt-returns-normally", "interrupt-returns-the-stage-states"},
     "C16": _COMMON | {"adapters-passed-are-the-stage-adapters", "adaptive-stage-is-finalized-once", "non-adaptive-stage-is-not-finalized",
@@ -180,9 +180,15 @@ def stage_loop(run, prop, it=None):
                 if interrupted:
                     g["interrupted_call"] = k
                 n_ret = NCH if not interrupted else opts["interrupt_returns"]
-                states = [Opaque(f"state<stage{k},chain{c}>") for c in range(n_ret)]
+                ids = list(range(n_ret))
+                if opts.get("drop_stage") == k and kw.get("adapters") is not None and not interrupted:
+                    # contract of the chain functions: a chain whose adapter initialisation raises AdaptationError is left out of the collated outputs
+                    # (here chain 0 -- so the surviving outputs are NOT a prefix of the chains)
+                    ids = list(range(1, NCH))
+                    g["dropped_at"] = k
+                states = [Opaque(f"state<stage{k},chain{c}>", chain=c) for c in ids]
                 g.setdefault("returned", []).append(states)
-                ads = {} if kw.get("adapters") is None else {"integration_transition": [[f"ad{j}<stage{k},chain{c}>" for c in range(n_ret)] for j in range(2)]}
+                ads = {} if kw.get("adapters") is None else {"integration_transition": [[f"ad{j}<stage{k},chain{c}>" for c in ids] for j in range(2)]}
                 return (states, ads, kb_interrupt(ex_) if interrupted else None)
             return Native(f, which)
         it.call_contracts["_sample_chains_sequential"] = chains_func("sequential")
@@ -385,6 +391,56 @@ def stage_loop(run, prop, it=None):
             teardown()
 
     it.explore(h, "sample_chains", roots=roots)
+
+    def h_drop(ctx):
+        """a chain dropped by an adaptive stage (AdaptationError from an adapter's initialize): sample_chains may give up (raise), but if it goes on every
+        later stage must run each surviving chain with that chain's OWN iterator, generator and trace / statistics arrays"""
+        drop_stage = ctx.choose(2, "drop_stage")
+        mod, ex, g, inits, trans, rngs = setup(ctx, dict(interrupt_stage=-1, interrupt_returns=NCH, drop_stage=drop_stage))
+        try:
+            n1, n2, n3 = z3.Int("stage0_n_iter"), z3.Int("stage1_n_iter"), z3.Int("n_main_iter")
+            n_warm = z3.Int("n_warm_up_iter")
+            for v in (n1, n2, n3):
+                ctx.assume(v >= 1)
+            ctx.assume(n1 + n2 == n_warm)
+            tf = Opaque("trace_func")
+            adapters = {"integration_transition": [Opaque("fast_adapter", is_fast=True), Opaque("slow_adapter", is_fast=False)]}
+            stage_cls = it.module("mici.stagers").resolve("ChainStage", ctx)
+
+            def stages(ex_, n_w, n_m, ad, tfs, *, trace_warm_up=False):
+                return {"warm A": ex_.call(stage_cls, [], dict(n_iter=n1, adapters=ad, trace_funcs=(tf,), record_stats=True)),
+                        "warm B": ex_.call(stage_cls, [], dict(n_iter=n2, adapters=ad, trace_funcs=(tf,), record_stats=True)),
+                        "main": ex_.call(stage_cls, [], dict(n_iter=n3, adapters=None, trace_funcs=(tf,), record_stats=True))}
+            stager = Opaque("stager", stages=Native(stages, "stager.stages"))
+            sampler = ex.call(mod.resolve("MarkovChainMonteCarloMethod", ctx), [Opaque("base_rng"), trans], {})
+            oid = tag + "/after-a-dropped-chain-survivors-keep-their-own-arrays-and-generators"
+            text = "a stage returned fewer chains than it was given: sample_chains raises, or runs every later stage with chain c's state, iterator, generator and arrays together"
+            try:
+                ex.call(ex.getattr(sampler, "sample_chains"), [n_warm, n3, inits],
+                        dict(trace_funcs=[tf], adapters=adapters, stager=stager, n_process=1, trace_warm_up=True,
+                             force_memmap=False, memmap_path=None, monitor_stats=None, display_progress=False))
+            except PyRaise:
+                ctx.run.ob(oid, core.DISCHARGED, "pyvc", text=text)
+                return
+            k0 = g.get("dropped_at")
+            bad = []
+            for k, call in enumerate(g["calls"]):
+                if k0 is None or k <= k0:
+                    continue
+                for d in call["pck"]:
+                    c = getattr(d["init_state"], "_attrs", {}).get("chain")
+                    tr, stt = d.get("chain_traces"), d.get("chain_stats")
+                    ok = c is not None and d["rng"] is rngs[c] and (tr is None or tr["pos"].name == f"trace.pos[{c}]") and \
+                        (stt is None or stt["integration_transition"]["n_step"].name == f"stat.n_step[{c}]")
+                    if not ok:
+                        bad.append(f"stage call {k}: state of chain {c} runs with generator {getattr(d['rng'], '_name', d['rng'])}, traces "
+                                   f"{None if tr is None else tr['pos'].name}, statistics {None if stt is None else stt['integration_transition']['n_step'].name}")
+            ctx.run.ob(oid, core.DISCHARGED if not bad else core.FAILED, "pyvc", detail="; ".join(bad[:3]), text=text,
+                       witness={"dropped_chain": 0, "dropped_in_stage_call": k0})
+        finally:
+            teardown()
+    if prop == "C13":
+        it.explore(h_drop, "sample_chains.dropped-chain", roots=[[0], [1]])
     # keep only the obligations that belong to the requesting property
     allowed = STAGE_OBLIGATIONS[prop]
     for oid in [o for o in run.obs if o.startswith(f"{run.prop}/{tag}/")]:
@@ -494,8 +550,18 @@ def allocation(run, it):
         np_ns.full = Native(np_full, "np.full")
         np_ns.isscalar = Native(lambda ex_, v: v.scalar, "np.isscalar")
         np_ns.array = Native(lambda ex_, v: TraceVal(v.kind, (), False), "np.array")
-        np_ns.issubdtype = Native(lambda ex_, dt, cls: dt[1] == "f", "np.issubdtype")
-        np_ns.inexact = "inexact"
+        INEXACT = ("f", "f4", "c")  # float64, float32, complex128 (numpy.inexact = floating + complexfloating)
+
+        def issub(ex_, dt, cls):
+            fam = {"inexact": INEXACT, "floating": ("f", "f4"), "complexfloating": ("c",), "integer": ("i",), "number": INEXACT + ("i",)}.get(cls)
+            if fam is None:
+                raise OutsideSubset(f"np.issubdtype(..., {cls!r})")
+            return dt[1] in fam
+        np_ns.issubdtype = Native(issub, "np.issubdtype")
+        for nm in ("inexact", "floating", "complexfloating", "integer", "number"):
+            setattr(np_ns, nm, nm)
+        for nm, kd in (("float64", "f"), ("double", "f"), ("float32", "f4"), ("complex128", "c"), ("int64", "i"), ("bool_", "b")):
+            setattr(np_ns, nm, ("dtype", kd))
         np_ns.nan = float("nan")
         it.ext_modules["pathlib"].Path = Native(lambda ex_, s: s if isinstance(s, PathTok) else PathTok(str(s)), "Path")
         try:
@@ -525,21 +591,28 @@ def allocation(run, it):
                            text="memory-mapped arrays of different (transition, statistic, chain) are backed by different files")
             # traces: a float vector, an int scalar and a python float scalar
             def tf1(ex_, state):
-                return {"pos": TraceVal("f", (3,), False), "count": TraceVal("i", (), True)}
+                return {"pos": TraceVal("f", (3,), False), "count": TraceVal("i", (), True), "amplitude": TraceVal("c", (2,), False)}
 
             def tf2(ex_, state):
-                return {"energy": TraceVal("f", (), True), "pos_x": TraceVal("f", (), False)}
+                return {"energy": TraceVal("f", (), True), "pos_x": TraceVal("f", (), False), "single": TraceVal("f4", (), False), "flag": TraceVal("b", (), True)}
             n0 = len(opened)
             traces = ex.call(mod.resolve("_init_traces", ctx), [[Native(tf1, "tf1"), Native(tf2, "tf2")], ["init0", "init1"], n_iter],
                              {"use_memmap": use_memmap, "memmap_path": "DIR"})
-            okt = set(traces) == {"pos", "count", "energy", "pos_x"} and all(len(v) == NCH for v in traces.values())
+            okt = set(traces) == {"pos", "count", "energy", "pos_x", "amplitude", "single", "flag"} and all(len(v) == NCH for v in traces.values())
             ctx.run.ob(tag + "/trace-structure", core.DISCHARGED if okt else core.FAILED, "pyvc", detail="" if okt else str(list(traces)))
             if okt:
-                want = {"pos": ("f", (3,)), "count": ("i", ()), "energy": ("f", ()), "pos_x": ("f", ())}
+                want = {"pos": ("f", (3,)), "count": ("i", ()), "energy": ("f", ()), "pos_x": ("f", ()), "amplitude": ("c", (2,)), "single": ("f4", ()), "flag": ("b", ())}
+                # storing a value of dtype x into an array of dtype y keeps the value exactly: same dtype or a lossless widening
+                lossless = {("f4", "f"), ("f4", "c"), ("f", "c"), ("b", "i"), ("b", "f"), ("b", "c")}
                 for k, (kind, shp) in want.items():
                     for a in traces[k]:
-                        fill_ok = (isinstance(a.fill, float) and a.fill != a.fill) if kind == "f" else a.fill == 0
+                        fill_ok = (isinstance(a.fill, float) and a.fill != a.fill) if kind in INEXACT else a.fill == 0
                         ctx.run.ob(tag + "/trace-fill-nan-for-inexact-else-zero", core.DISCHARGED if fill_ok else core.FAILED, "pyvc", detail="" if fill_ok else f"{k}: fill {a.fill}")
+                        dk = a.dtype[1] if isinstance(a.dtype, tuple) and len(a.dtype) == 2 else a.dtype
+                        okd = dk == kind or (kind, dk) in lossless
+                        ctx.run.ob(tag + "/trace-array-dtype-holds-the-traced-values-exactly", core.DISCHARGED if okd else core.FAILED, "pyvc",
+                                   detail="" if okd else f"{k}: traced value dtype kind {kind!r} stored in an array of dtype kind {dk!r} (rows would not be the traced quantities)",
+                                   text="the dtype of a trace array is the dtype of the traced value (or a lossless widening of it): float, single, complex, integer, boolean")
                         shape = a.length if isinstance(a.length, tuple) else (a.length,)
                         ctx.prove(tag + "/trace-rows", lift(shape[0]) == n_iter)
                         oksh = tuple(shape[1:]) == shp
